@@ -21,7 +21,7 @@ from acnportal.acndata import DataClient
 from acnportal.acndata.utils import http_date, parse_http_date, parse_dates
 
 from mc.core import Acc
-from mc.transport import FakeServer, owned_requests
+from mc.transport import FakeServer, MultiServer, owned_requests
 
 ID = "C20"
 LEVEL = "model_checking"
@@ -38,6 +38,7 @@ ASSUMPTIONS = [
     "HTTP errors / malformed payloads are not modelled (the property defines no behaviour under them); the server links pages through _links.next.href relative to the base url",
     "query parameters are compared as a parsed multiset (name=value), not as a literal string",
     "zone rules: the reference uses the system tz database through zoneinfo, the client pytz (both must describe the same instants)",
+    "interleave block: 2-3 generators of one DataClient advanced in every distinct order of next() calls (capped at 1500 / 20000 orders per page menu, the cap is reported)",
 ]
 CHUNK = 4
 
@@ -83,6 +84,7 @@ def space(tier, seed):
         for comp in compositions(n, b["max_pages"]):
             items.append({"block": "pages", "sizes": list(comp)})
     items.append({"block": "bytime"})
+    items.append({"block": "interleave", "cap": 1500 if tier == "quick" else 20000})
     for z in ZONES:
         items.append({"block": "times", "zone": z, "tier": tier})
     return items
@@ -199,7 +201,7 @@ def run_pages(item, only=None):
         stats["out"].add((len(sizes), 0 in sizes, n))
     # ---- invalid sites: rejected before any request -----------------------------------
     if only is None or only.get("invalid"):
-        for bad in ("Caltech", "", "office", "jpl ", None):
+        for bad in ("Caltech", "", "office", "jpl ", None, "cal", "001", "caltech/", "jpl,caltech"):
             server = FakeServer(copy.deepcopy(pages), base=BASE)
             stats["n"] += 1
             with owned_requests(server):
@@ -217,6 +219,8 @@ def run_pages(item, only=None):
                     rep("site:invalid-accepted:count", "count_sessions(%r) accepted" % (bad,), None, "ValueError", {"invalid": True})
                 except ValueError:
                     pass
+                except Exception as exc:
+                    rep("site:wrong-exception", "count_sessions(%r) raised %r" % (bad, exc), repr(exc), "ValueError", {"invalid": True})
                 if server.log:
                     rep("site:request-before-rejection", "count_sessions(%r) sent a request" % (bad,), len(server.log), 0, {"invalid": True})
     stats["nt"] = len(sizes) >= 3 or (len(sizes) >= 2 and 0 in sizes)
@@ -276,6 +280,69 @@ def run_bytime(item, only=None):
             except Exception as exc:
                 rep("bytime:count:exception", "count=True raised %r" % (exc,), repr(exc), None, ctx)
     stats["nt"] = True
+    return viol, stats
+
+
+def run_interleave(item, only=None):
+    """two (or three) generators of ONE client advanced in every interleaving: each must yield exactly its own
+    site's sessions in server order, following its own next links"""
+    viol, stats = [], {"n": 0, "states": [], "out": set(), "nt": True}
+
+    def rep(sig, what, o=None, e=None, ctx=None):
+        if len(viol) < 20:
+            viol.append((sig, what, o, e, ctx))
+
+    sets_menu = [
+        {"caltech": [2, 1], "jpl": [1, 2]},
+        {"caltech": [1, 0, 1], "jpl": [2]},
+        {"caltech": [1, 1], "jpl": [1, 1], "office001": [1, 1]},
+    ]
+    for sizes in sets_menu:
+        sets, want = {}, {}
+        for site, ps in sizes.items():
+            docs = [dict(mkdoc(i), sessionID="%s-%d" % (site, i)) for i in range(sum(ps))]
+            want[site] = [d["sessionID"] for d in docs]
+            pages, k = [], 0
+            for n in ps:
+                pages.append(docs[k : k + n])
+                k += n
+            sets[site] = pages
+        sites = sorted(sizes)
+        # an interleaving = the order in which next() is called on the generators (each n_i + 1 times: the
+        # last call returns StopIteration)
+        counts = {s: len(want[s]) + 1 for s in sites}
+        seq0 = [s for s in sites for _ in range(counts[s])]
+        seen = set()
+        for perm in itertools.permutations(seq0):
+            if perm in seen:
+                continue
+            seen.add(perm)
+            ctx = {"sizes": sizes, "order": list(perm)}
+            if only is not None and only != ctx:
+                continue
+            server = MultiServer(copy.deepcopy(sets), base=BASE)
+            client = DataClient("tok")
+            got = {s: [] for s in sites}
+            stats["n"] += 1
+            try:
+                with owned_requests(server):
+                    gens = {s: client.get_sessions(s) for s in sites}
+                    for s in perm:
+                        try:
+                            got[s].append(next(gens[s])["sessionID"])
+                        except StopIteration:
+                            got[s].append(None)
+            except Exception as exc:
+                rep("interleave:exception:%s" % type(exc).__name__, "interleaved generators raised %r" % (exc,), repr(exc), None, ctx)
+                continue
+            for s in sites:
+                if got[s] != want[s] + [None]:
+                    rep("interleave:wrong-items", "generators advanced in the order %s: the %s generator yielded %s, its server holds %s" % (list(perm), s, got[s], want[s]), got[s], want[s], ctx)
+                    break
+            stats["states"].append((tuple(sorted(sizes.items())), perm))
+            stats["out"].add(("interleave", len(sites)))
+            if len(seen) >= item.get("cap", 3000):
+                break
     return viol, stats
 
 
@@ -365,7 +432,7 @@ def check_dt(got, instant, ztz, rep, zone, stats, where, ctx=None):
 
 
 def execute(item, only=None):
-    return {"pages": run_pages, "bytime": run_bytime, "times": run_times}[item["block"]](item, only)
+    return {"pages": run_pages, "bytime": run_bytime, "times": run_times, "interleave": run_interleave}[item["block"]](item, only)
 
 
 def run(item):
